@@ -101,7 +101,11 @@ def run_property(prop: str, tier: str, repo: str, seed: int, args) -> int:
     violations: list[dict] = []
     known_hits: list[dict] = []
     exit_code = 0
-    os.makedirs(os.path.join(ROOT, "replays", prop), exist_ok=True)
+    rdir = os.path.join(ROOT, "replays", prop)
+    os.makedirs(rdir, exist_ok=True)
+    for old in os.listdir(rdir):
+        if old.endswith(".json"):
+            os.unlink(os.path.join(rdir, old))
     for oid, st in sorted(status.items()):
         if st == "disagree":
             print(f"ENGINE-ERROR solvers disagree on {oid}")
